@@ -548,7 +548,10 @@ class ConfigParser(object):
     return self._parse_multi_range(species_tuple, value, tuple_type)
 
   def _pair_species_func(self, k):
-    species_a, species_b = k.split("-")
+    tokens = k.split("-")
+    if len(tokens) != 2:
+      raise ConfigParserException("Invalid species pair '{}': keys should be of the form 'SPECIES_A-SPECIES_B'".format(k))
+    species_a, species_b = tokens
     species_a = species_a.strip()
     species_b = species_b.strip()
     return  SpeciesTuple(species_a, species_b)
@@ -574,7 +577,10 @@ class ConfigParser(object):
 
   def _parse_eam_fs_density_line(self, k, value):
     def species_func(k):
-      from_species, to_species = k.split("->")
+      tokens = k.split("->")
+      if len(tokens) != 2:
+        raise ConfigParserException("invalid key '{}'".format(k))
+      from_species, to_species = tokens
       from_species = from_species.strip()
       to_species = to_species.strip()
       return  EAMFSDensitySpeciesTuple(from_species, to_species)
